@@ -23,7 +23,9 @@ LEVEL_TEXT = ('Theorems in coq/theories/Properties/C02.v for every commutative r
               'every sample of Wavefront.field of the result is sqrt|ar ac| * sum of the fields\' Fraunhofer sums at the '
               'sample\'s own coordinate inside (mask bounding box or whole array) /\\ (centred prop_shape*os box) and 0 '
               'outside; shape/prop_shape/mask only select; metadata. The model follows propagate.py statement by '
-              'statement and is run exactly against lentil on every check.')
+              'statement and is run exactly against lentil on every check. Also proved: the complete decision of which calls are refused '
+              'and with which exception (C02_outcome_decided), Wavefront.insert(out, weight) = out + weight*|field|^2 for any fields, '
+              'array shape and weight, and the focal-length rule.')
 LEVEL_NOTE = ('Trusted: Coq kernel, extraction, harness; numpy (BLAS dot, np.exp, np.sqrt, np.fix, np.where/any) and IEEE '
               'rounding are modelled not verified (tolerance 1e-9 relative in the tie). Tilted fields (Field.shift) are a '
               'parameter of the model (property C04).')
@@ -55,6 +57,9 @@ RULE = ('corpus, then random cases over {pupil->image, image->pupil, pupil->imag
         '(MaskedArray with and without masked entries, np.matrix, a metadata subclass), amplitudes scaled by 2**-43..2**20 with a '
         'tolerance relative to that scale, single values as 0-d / one-element arrays / numpy scalars; arrays handed to the API must stay '
         'untouched. Large sizes (2**20 output or input samples, 1100 rows, 15 segments, odd sizes) with a vectorised reference. '
+        'Refusals: wavefronts without pixelscale and/or with 0-d field data (scalar planes), with windows that are evaluated or empty, '
+        'and the order of the checks (type, mask shape, empty mask, fields). Wavefront.insert(out, weight) on pupil wavefronts and on '
+        'propagated ones (segmented: coherent sums), any out shape, weights incl. 0, negative and the default. '
         'lentil is imported afresh for every case, so each replay is '
         'self-contained. non-trivial = history, or non-square or prop_shape < shape or mask or per-axis scales')
 
@@ -109,6 +114,8 @@ def steps_of(c):
         return [(int(s['src']), s.get('call'), s.get('mul')) for s in c['steps']]
     if c['dir'] == 'roundtrip':
         return [(0, c['call'], None), (1, c['call2'], None)]
+    if c.get('call') is None:
+        return []                       # Wavefront.insert on the wavefront itself
     return [(0, c['call'], None)]
 
 
@@ -215,7 +222,8 @@ def wf_summary(w):
     for f in w.data:
         d = np.asarray(f.data)
         fields.append({'shape': [int(s) for s in d.shape], 'offset': [int(f.offset[0]), int(f.offset[1])],
-                       'ntilt': len(f.tilt), 'data': clist(d) if d.ndim == 2 else [float(d.real), float(d.imag)]})
+                       'ntilt': len(f.tilt), 'data': clist(d) if d.ndim == 2 else [float(d.real), float(d.imag)],
+                       'fps': None if f.pixelscale is None else [float(x) for x in np.broadcast_to(f.pixelscale, (2,))]})
     ps = w.pixelscale
     return {'wl': float(w.wavelength), 'ps': None if ps is None else [float(ps[0]), float(ps[1])],
             'z': None if w.focal_length is None else float(w.focal_length), 'ptype': str(w.ptype),
@@ -300,9 +308,21 @@ def mk_plane(lentil, c, spec):
 
 
 def build_wavefront(lentil, c):
-    A, mask = plane_arrays(c)
     wl, z, dx = fl(c['wl']), fl(c['z']), fl_arg(c['dx'])
     start = c.get('start', c['dir'])
+    if c['dir'] == 'refuse':
+        # wavefronts propagate_dft cannot evaluate: pixelscale never set, and/or a scalar plane (0-d field data)
+        if c.get('scalar') is not None:
+            a = complex(*c['scalar'])
+            A, mask = (a.real if a.imag == 0 else a), None
+        else:
+            A, mask = plane_arrays(c)
+        ps = None if c.get('no_ps') else dx
+        if start == 'pupil':
+            return lentil.Wavefront(wl) * lentil.Pupil(amplitude=A, mask=mask, pixelscale=ps, focal_length=z)
+        return (lentil.Wavefront(wl, pixelscale=ps, focal_length=z, ptype=lentil.image)
+                * lentil.Image(amplitude=A, mask=mask, pixelscale=ps))
+    A, mask = plane_arrays(c)
     if start in ('pupil', 'roundtrip'):
         return lentil.Wavefront(wl) * lentil.Pupil(amplitude=A, mask=mask, pixelscale=dx, focal_length=z)
     if start == 'image':
@@ -458,9 +478,27 @@ def _run0(c):
     try:
         w = build_wavefront(lentil, c)
         res['input'] = wf_summary(w)
-        res['in_plane'] = clist(w.field)       # read BEFORE any propagation
+        if c['dir'] != 'refuse':
+            res['in_plane'] = clist(w.field)       # read BEFORE any propagation
     except Exception as e:
         return {'err': type(e).__name__, 'stage': 'wavefront'}
+    if c['dir'] == 'insert':
+        # Wavefront.insert(out, weight) on the wavefront itself or on its propagation
+        try:
+            w2 = w if c.get('call') is None else do_call(lentil, w, c['call'])
+            snap2 = snapshot(w2)
+            arr = np.array(c['out'], dtype=float)
+            wt = fl(c['weight'])
+            r = w2.insert(arr) if (wt == 1 and c.get('default_weight')) else w2.insert(arr, wt) if c.get('positional') \
+                else w2.insert(arr, weight=wt)
+            res['insert'] = {'value': [[float(v) for v in row] for row in np.asarray(r)], 'fields': wf_summary(w2)['fields'],
+                             'returned_is_out': bool(r is arr)}
+            d = changed(w2, snap2)
+            if d:
+                res.setdefault('mutations', []).append({'step': 1, 'wavefront': 0, 'what': d})
+        except Exception as e:
+            res['err'] = type(e).__name__
+        return res
     if c['dir'] == 'history':
         # the SAME objects are propagated again and again; every wavefront alive must stay what it was
         live = [w]
@@ -535,6 +573,21 @@ def enc_call(call):
     return out
 
 
+def enc_fields(fields):
+    """plist pfield: 2-d fields (tag 2) and 0-d fields (tag 0), no tilt"""
+    out = [len(fields)]
+    for f in fields:
+        if len(f['shape']) == 0:
+            out += [0] + C.enc_c((C.frac(f['data'][0]), C.frac(f['data'][1])))
+        else:
+            out += [2, f['shape'][0], f['shape'][1]]
+            for row in f['data']:
+                for v in row:
+                    out += C.enc_c((C.frac(v[0]), C.frac(v[1])))
+        out += [f['offset'][0], f['offset'][1], 0]
+    return out
+
+
 def encode(c):
     """the model is run on the fields the implementation's wavefront holds (public attributes)"""
     if c['dir'] == 'big':
@@ -542,24 +595,31 @@ def encode(c):
     impl = run_impl(c)
     if 'input' not in impl:
         return None
+    if c['dir'] == 'insert':
+        if 'insert' not in impl:
+            return None
+        out = [4, 1] + enc_fields(impl['insert']['fields'])
+        out += [len(c['out']), len(c['out'][0])]
+        for row in c['out']:
+            for v in row:
+                out += C.enc_c((Fraction(v), Fraction(0)))
+        return out + C.enc_c((Fraction(c['weight']), Fraction(0)))
     w = impl['input']
-    if w['ps'] is None or w['z'] is None or not math.isfinite(w['z']):
+    refuse = c['dir'] == 'refuse'
+    if w['z'] is None or not math.isfinite(w['z']) or (w['ps'] is None and not refuse):
         return None
     for f in w['fields']:
-        if f['ntilt'] or len(f['shape']) != 2:
+        if f['ntilt'] or (len(f['shape']) != 2 and not (refuse and len(f['shape']) == 0)):
             return None
+    if len(w['shape']) != 2 and not (refuse and c['call'].get('shape') is not None):
+        return None
     L = case_L(c)
     if L > LMODEL:
         return None          # phases not on a small root-of-unity grid (near ties, SI-like values): oracle only
     out = [{'roundtrip': 2, 'history': 3}.get(c['dir'], 1), L]
-    out += C.enc_q(w['wl']) + [1] + C.enc_q(w['ps'][0]) + C.enc_q(w['ps'][1]) + [1] + C.enc_q(w['z'])
-    out += [w['shape'][0], w['shape'][1], PT[w['ptype']], 0, len(w['fields'])]
-    for f in w['fields']:
-        out += [2, f['shape'][0], f['shape'][1]]
-        for row in f['data']:
-            for v in row:
-                out += C.enc_c((C.frac(v[0]), C.frac(v[1])))
-        out += [f['offset'][0], f['offset'][1], 0]
+    out += C.enc_q(w['wl']) + ([0] if w['ps'] is None else [1] + C.enc_q(w['ps'][0]) + C.enc_q(w['ps'][1])) + [1] + C.enc_q(w['z'])
+    wsh = w['shape'] if len(w['shape']) == 2 else [1, 1]       # shape (): never read when the call names a shape
+    out += [wsh[0], wsh[1], PT[w['ptype']], 0] + enc_fields(w['fields'])
     if c['dir'] == 'history':
         st = steps_of(c)
         out += [len(st)]
@@ -633,6 +693,13 @@ def read_wavefront(rd, L, scale):
 
 
 def decode(c, ints):
+    if c['dir'] == 'insert':
+        rd = C.Reader(ints, 1)
+        if rd.z() == 1:
+            return {'err': C.ERRNAMES[rd.z()]}
+        out = {'insert': [[C.kval(v, 1).real for v in row] for row in rd.arr()]}
+        assert rd.done()
+        return out
     L = case_L(c)
     rd = C.Reader(ints, L)
     if c['dir'] == 'history':
@@ -676,6 +743,13 @@ def num_close(a, b):
 
 
 def compare(c, impl, model):
+    if c['dir'] == 'insert':
+        if ('err' in impl) != ('err' in model):
+            return f'implementation {impl.get("err", "returned a value")}, model {model.get("err", "returned a value")}'
+        if 'err' in impl:
+            return None if impl['err'] == model['err'] else f'error kinds differ: impl {impl["err"]} model {model["err"]}'
+        msg = arr_close(np.asarray(impl['insert']['value']), np.asarray(model['insert']))
+        return msg and 'Wavefront.insert: ' + msg
     if c['dir'] == 'history':
         if 'steps' not in impl:
             return f'implementation {impl.get("err")} while building the wavefront'
@@ -815,6 +889,10 @@ def oracle(c, impl):
         return oracle_history(c, impl)
     if c['dir'] == 'big':
         return impl.get('verdict') or (mutation_msg(impl['mutations'][0]) if impl.get('mutations') else None)
+    if c['dir'] == 'refuse':
+        return oracle_refuse(c, impl)
+    if c['dir'] == 'insert':
+        return oracle_insert(c, impl)
     if impl.get('mutations'):
         return mutation_msg(impl['mutations'][0])
     if c['dir'] == 'none':
@@ -867,9 +945,73 @@ def oracle(c, impl):
     want = [float(du[0] / os_), float(du[1] / os_)]
     if not (num_close(o['ps'][0], want[0]) and num_close(o['ps'][1], want[1])):
         return f'output pixelscale {o["ps"]} is not du/oversample = {want}'
+    for k, f in enumerate(o['fields']):
+        if f.get('fps') is None or not (num_close(f['fps'][0], want[0]) and num_close(f['fps'][1], want[1])):
+            return f'output field {k} carries pixelscale {f.get("fps")}, not du/oversample = {want}'
     want_pt = {'pupil': 'image', 'image': 'pupil', 'roundtrip': 'pupil'}[c['dir']]
     if o['ptype'] != want_pt:
         return f'output ptype {o["ptype"]}, expected {want_pt}'
+    return None
+
+
+def lay_over(plane, R, Cc):
+    """a field given on its own grid laid centre on centre (index floor(n/2)) over an R x Cc array"""
+    plane = np.asarray(plane, dtype=complex)
+    n, m = plane.shape
+    out = np.zeros((R, Cc), dtype=complex)
+    for i in range(R):
+        for j in range(Cc):
+            a, b = i - R // 2 + n // 2, j - Cc // 2 + m // 2
+            if 0 <= a < n and 0 <= b < m:
+                out[i, j] = plane[a, b]
+    return out
+
+
+def oracle_insert(c, impl):
+    """Wavefront.insert(out, weight) = out + weight * |field|^2, the field laid centre on centre over out"""
+    if impl.get('mutations'):
+        return mutation_msg(impl['mutations'][0])
+    plane = transmission(c)
+    if c.get('call') is not None:
+        S, P = call_shapes(c['call'], plane.shape)
+        if mask_ok(c['call'], S) is not None:
+            return None
+        (ar, ac), = case_alphas(c)[0]
+        plane, _win = fraunhofer(plane, ar, ac, S, P, c['call']['os'], c['call'].get('omask'))
+    if 'err' in impl:
+        return f'Wavefront.insert raised {impl["err"]}'
+    out = np.array(c['out'], dtype=float)
+    exp = out + float(Fraction(c['weight'])) * np.abs(lay_over(plane, *out.shape)) ** 2
+    msg = arr_close(np.asarray(impl['insert']['value']), exp)
+    return msg and 'Wavefront.insert(out, weight) is not out + weight*|field|^2 with the field centred on out: ' + msg
+
+
+def oracle_refuse(c, impl):
+    """a wavefront without pixelscale (alpha undefined) or with 0-d field data: where no sample is evaluated the result is
+    the all-zero plane with the usual metadata; where samples are evaluated a wavefront without pixelscale cannot be
+    given any value (the kind of exception is compared with the model, not pinned here)"""
+    if impl.get('mutations'):
+        return mutation_msg(impl['mutations'][0])
+    call = c['call']
+    wshape = tuple(impl['input']['shape'])
+    if call.get('shape') is None and len(wshape) != 2:
+        return None
+    S, P = call_shapes(call, wshape)
+    bad = mask_ok(call, S)
+    if bad == 'unspecified':
+        return None
+    if bad is not None:
+        return None if impl.get('err') == bad else f'an unusable mask was not refused with {bad} (got {impl.get("err", "a result")})'
+    _z, win = fraunhofer(np.zeros((1, 1)), Fraction(0), Fraction(0), S, P, call['os'], call.get('omask'))
+    if win is None:
+        if 'err' in impl:
+            return f'no sample is evaluated (the window is empty), yet propagate_dft raised {impl["err"]}'
+        f = cx(impl['field'])
+        if f.shape != (S[0] * call['os'], S[1] * call['os']) or np.any(f != 0) or impl['out']['fields']:
+            return 'no sample is evaluated (the window is empty), yet the result is not the all-zero plane'
+        return None
+    if c.get('no_ps') and 'err' not in impl:
+        return 'a wavefront whose pixelscale was never set was propagated to numbers (alpha is undefined)'
     return None
 
 
@@ -957,6 +1099,9 @@ def oracle_history(c, impl):
         want = [float(du[0] / os_), float(du[1] / os_)]
         if not (num_close(o['ps'][0], want[0]) and num_close(o['ps'][1], want[1])):
             return f'{tag}: output pixelscale {o["ps"]} is not du/oversample = {want}'
+        for j, f in enumerate(o['fields']):
+            if f.get('fps') is None or not (num_close(f['fps'][0], want[0]) and num_close(f['fps'][1], want[1])):
+                return f'{tag}: output field {j} carries pixelscale {f.get("fps")}, not du/oversample = {want}'
         if o['ptype'] != SWAP[ptype[src]]:
             return f'{tag}: output ptype {o["ptype"]}, expected {SWAP[ptype[src]]}'
         if k in muts and not note:
@@ -1307,6 +1452,45 @@ def rnd_neartie(rng, maxn):
     return c
 
 
+def rnd_refuse_or_insert(rng, maxn, maxs):
+    A, mask = rnd_pupil(rng, min(maxn, 5))
+    wshape = (len(A), len(A[0]))
+    c = {'A': A, 'mask': mask, 'wl': rng.choice(['1/2', '1/4', '1']), 'z': rng.choice(['1', '2', '4']), 'dx': rnd_scale(rng),
+         'start': 'pupil' if rng.random() < 0.7 else 'image'}
+    for _ in range(50):
+        call, so = rnd_call(rng, wshape, min(maxs, 4), 2)
+        if usable(call, wshape):
+            break
+    else:
+        return None
+    if rng.random() < 0.45:
+        c['dir'] = 'refuse'
+        c['no_ps'] = rng.random() < 0.6
+        if rng.random() < 0.5 or not c['no_ps']:
+            c['scalar'] = [rng.choice([1, 2, -1]), rng.choice([0, 0, 1])]
+            if call.get('shape') is None:
+                call['shape'] = [rng.randint(1, 4), rng.randint(1, 4)]
+                call['omask'] = None
+        S, P = call_shapes(call, wshape)
+        if rng.random() < 0.4 and S[0] * call['os'] >= 3 and S[1] * call['os'] >= 3:
+            # a mask in a corner and a one-sample propagation window at the centre: nothing is evaluated
+            Ro, Co = S[0] * call['os'], S[1] * call['os']
+            call['prop_shape'] = 1 if call['os'] == 1 else None
+            if call['prop_shape'] == 1:
+                call['omask'] = [[1 if (r == 0 and cc == 0) else 0 for cc in range(Co)] for r in range(Ro)]
+        rnd_forms(rng, call)
+        c['call'] = call
+        return c
+    c['dir'] = 'insert'
+    c['call'] = call if rng.random() < 0.65 else None
+    R, Cc = (so if c['call'] is not None else wshape) if rng.random() < 0.5 else (rng.randint(1, 9), rng.randint(1, 9))
+    c['out'] = [[rng.randint(-3, 9) for _ in range(Cc)] for _ in range(R)]
+    c['weight'] = rng.choice(['1', '1', '1/2', '3', '-2', '0', '5/4'])
+    c['default_weight'] = rng.random() < 0.5
+    c['positional'] = rng.random() < 0.3
+    return c
+
+
 def rnd_history(rng, wshape, maxs):
     """2-4 propagations that re-use wavefront objects: the same wavefront with one argument varied at a time, or a
     pupil -> image -> pupil chain whose intermediate wavefront is propagated more than once"""
@@ -1371,6 +1555,12 @@ def generate(rng, tier):
         if rng.random() < 0.03:
             c = rnd_neartie(rng, maxn)
             if case_alphas(c)[1]:
+                out += 1
+                yield c
+            continue
+        if rng.random() < 0.08:
+            c = rnd_refuse_or_insert(rng, maxn, maxs)
+            if c is not None and case_alphas(c)[1] and case_L(c) <= Lmax:
                 out += 1
                 yield c
             continue
@@ -1450,7 +1640,7 @@ def classify(c):
 
 
 def nontrivial(c):
-    if c['dir'] in ('history', 'big'):
+    if c['dir'] in ('history', 'big', 'refuse', 'insert'):
         return True
     n, m = len(c['A']), len(c['A'][0])
     call = c['call']
